@@ -859,8 +859,7 @@ def run(ctx):
         n += 1
         if h.mutating:
             sigs.add('%d:%d' % (ctx.shard, k))
-        if n == 2:
-            ctx.case(n=0, sample={'map': mapfile, 'loop_id': L, 'ops': h.ops[:8]})
+        ctx.sample({'map': mapfile, 'loop_id': L, 'ops': h.ops[:8]})
     ctx.case(n=n, nt_disjoint=len(sigs))
 
 
